@@ -536,6 +536,66 @@ func xattrProbe(dir string, typ byte, key string, val []byte) (refused bool) {
 
 type xehCall struct{ Dst, Src, Key string }
 
+// ---------------------------------------------------------------------------
+// requested timestamps outside the int64-nanosecond window
+
+const (
+	c13MaxNsSec  = 9223372036  // 2262-04-11T23:47:16
+	c13MaxNsNsec = 854775807   // last nanosecond an int64 ns count can hold
+	c13MinNsSec  = -9223372037 // 1677-09-21T00:12:43
+	c13MinNsNsec = 145224192   // first nanosecond an int64 ns count can hold
+)
+
+// genFarTime draws [sec, nsec] of an instant that time.Time.UnixNano cannot
+// represent: the two instants just outside the window, years 2262..2400 and
+// years 1500..1677 with random second and nanosecond.
+func genFarTime(r *core.Rand) []int64 {
+	y1500 := time.Date(1500, 1, 1, 0, 0, 0, 0, time.UTC).Unix()
+	y2401 := time.Date(2401, 1, 1, 0, 0, 0, 0, time.UTC).Unix()
+	switch r.Intn(8) {
+	case 0:
+		return []int64{c13MaxNsSec, c13MaxNsNsec + 1}
+	case 1:
+		return []int64{c13MinNsSec, c13MinNsNsec - 1}
+	case 2, 3, 4:
+		span := uint64(y2401 - (c13MaxNsSec + 1))
+		return []int64{c13MaxNsSec + 1 + int64(r.U64()%span), int64(r.Intn(1_000_000_000))}
+	default:
+		span := uint64(c13MinNsSec - y1500)
+		return []int64{y1500 + int64(r.U64()%span), int64(r.Intn(1_000_000_000))}
+	}
+}
+
+// lstatPair reads the mtime of p as a (sec, nsec) pair, never through an
+// int64 nanosecond count.
+func lstatPair(p string) (int64, int64, error) {
+	var st unix.Stat_t
+	if err := unix.Lstat(p, &st); err != nil {
+		return 0, 0, err
+	}
+	return int64(st.Mtim.Sec), int64(st.Mtim.Nsec), nil
+}
+
+// farTimeOnFS returns the (sec, nsec) an independent utimensat(2) with the
+// requested pair leaves on a scratch node of the file system of dir, so that
+// whatever clamping that file system applies is tolerated rather than guessed.
+func farTimeOnFS(dir string, sec, nsec int64) (int64, int64, error) {
+	d, err := os.MkdirTemp(dir, fmt.Sprintf("verif-c13-%d-ut-", os.Getpid()))
+	if err != nil {
+		return 0, 0, err
+	}
+	defer os.RemoveAll(d)
+	f := filepath.Join(d, "n")
+	if err := os.WriteFile(f, nil, 0600); err != nil {
+		return 0, 0, err
+	}
+	ts := []unix.Timespec{{Sec: sec, Nsec: nsec}, {Sec: sec, Nsec: nsec}}
+	if err := unix.UtimesNanoAt(unix.AT_FDCWD, f, ts, unix.AT_SYMLINK_NOFOLLOW); err != nil {
+		return 0, 0, err
+	}
+	return lstatPair(f)
+}
+
 func shortLines(ls []string, n int) []string {
 	out := make([]string, len(ls))
 	for i, l := range ls {
@@ -562,11 +622,14 @@ type c13Plan struct {
 	Mode     *int   `json:"mode,omitempty"`
 	ModeStr  string `json:"mode_str,omitempty"`
 	Utime    *int64 `json:"utime_ns,omitempty"`
-	Xeh      string `json:"xattr_error_handler"`   // nil | allow | strict (recording, returns the error) | record (recording, tolerant)
-	XFault   bool   `json:"xattr_fault,omitempty"` // destination on a file system that rejects the oversized values
-	XKey     string `json:"xattr_fault_key,omitempty"`
-	Notify   bool   `json:"notifier"`
-	Umask    int    `json:"umask"`
+	// UtimeFar, if set, replaces Utime by an instant outside the window an
+	// int64 nanosecond count can hold (1677-09-21 .. 2262-04-11): [sec, nsec]
+	UtimeFar []int64 `json:"utime_far_sec_nsec,omitempty"`
+	Xeh      string  `json:"xattr_error_handler"`   // nil | allow | strict (recording, returns the error) | record (recording, tolerant)
+	XFault   bool    `json:"xattr_fault,omitempty"` // destination on a file system that rejects the oversized values
+	XKey     string  `json:"xattr_fault_key,omitempty"`
+	Notify   bool    `json:"notifier"`
+	Umask    int     `json:"umask"`
 }
 
 func (p *c13Plan) optCombo() string {
@@ -584,7 +647,9 @@ func (p *c13Plan) optCombo() string {
 			o = append(o, "modestr")
 		}
 	}
-	if p.Utime != nil {
+	if p.UtimeFar != nil {
+		o = append(o, "utimefar")
+	} else if p.Utime != nil {
 		o = append(o, "utime")
 	}
 	if p.Xeh != "nil" {
@@ -618,8 +683,8 @@ func init() {
 		Level: "exploration",
 		Rule: "random source trees (adversarial names incl. a 255-byte name, files around the 32KiB boundary, symlinks relative/absolute/dangling/looping, fifos, char and block devices, a few sockets, hard-link groups of regular files and of fifos/char devices, setuid/setgid/sticky, owners {0,1234,65534}, ns/negative/far-future mtimes, user.* xattrs on files and dirs, trusted.* xattrs on symlinks, random metadata on the source root itself, 1/8 of the directories without any execute bit, up to two extra symlinks whose absolute or relative target is an existing entry) are created on disk and copied with fs.Copy into an empty destination root; " +
 			"source = {whole tree, one sub-directory, one file/fifo/device/socket, one symlink}; destination argument = {existing root, new nested path n1/n2/leaf, new nested directory n1/n2/}; flags = FollowLinks on/off, CopyDirContents on/off (directory sources), process umask {0,022,077}; in 1/8 of the cases (xattr fault variant) the destination root is a fresh directory on a file system that rejects oversized xattr values (probed at run time: /var/tmp, /tmp, /root or $VERIF_C13_XFAULT_BASE; the source stays on tmpfs), 1-3 entries carry a 4500/8000/20000-byte value of a key K in {user.xf, trusted.xf, user.k1}, at least two other files/dirs/symlinks (and sometimes the source root) carry the SAME key with 0-40 byte values at names sorting before and after the oversized ones, and the handler is AllowXAttrErrors or a recording tolerant handler (7/8) or an aborting one (1/8); " +
-			"options drawn independently: WithChown (uid,gid from {0,1,1234,65534,4000000000}), Mode (octal incl. special bits) or ModeStr (symbolic: 20 classic forms and a grammar of 1-3 clauses of who-lists x 1-2 operations + - = x subsets of rwx, X (not after '-'), s, t (with who 'a', or alone as +t/-t), permission copies u/g/o), Utime (ns, negative, far future), XAttrErrorHandler {nil, allow, recording-strict, recording-tolerant}, change notifier on 7/8 of the cases. " +
-			"Oracle: independent lstat/readlink/listxattr/bytes snapshot of the source, re-rooted at the landing path, with the option overrides applied, compared with the snapshot of the destination (type, bytes, symlink target, mode incl. special bits, uid/gid, ns mtime of files, symlinks and directories, xattrs, rdev, link groups recomputed from source inodes inside the copied subset); symbolic modes are evaluated by /bin/chmod on scratch nodes of the same type and original mode; directories created above the target must carry the requested owner and timestamp; when the landing path is the image of a source directory but existed before its contents were copied (the destination root, or a path created with MkdirAll for CopyDirContents / a trailing-slash destination) that directory's own ns mtime must equal the source directory's (or the requested Utime) - nothing else of it is judged; an xattr (entry, key) may be missing in the copy only if the recording handler was called for exactly that destination path and key, or - AllowXAttrErrors - an independent lsetxattr of that key/value on a scratch node of the destination file system is refused (further keys of the same entry after such a tolerated failure are counted, not judged); every handler call must name a copied destination path and carry an error; the notifier must be called exactly once per non-directory with its leading-slash normalised destination path (calls for directories are counted, not judged). " +
+			"options drawn independently: WithChown (uid,gid from {0,1,1234,65534,4000000000}), Mode (octal incl. special bits) or ModeStr (symbolic: 20 classic forms and a grammar of 1-3 clauses of who-lists x 1-2 operations + - = x subsets of rwx, X (not after '-'), s, t (with who 'a', or alone as +t/-t), permission copies u/g/o), Utime (ns, negative, far future; in 1/12 of the Utime cases an instant OUTSIDE the window an int64 nanosecond count can hold: the two instants one nanosecond outside it, years 2262-2400, years 1500-1677, random second and nanosecond), XAttrErrorHandler {nil, allow, recording-strict, recording-tolerant}, change notifier on 7/8 of the cases. " +
+			"Oracle: independent lstat/readlink/listxattr/bytes snapshot of the source, re-rooted at the landing path, with the option overrides applied, compared with the snapshot of the destination (type, bytes, symlink target, mode incl. special bits, uid/gid, ns mtime of files, symlinks and directories, xattrs, rdev, link groups recomputed from source inodes inside the copied subset); symbolic modes are evaluated by /bin/chmod on scratch nodes of the same type and original mode; directories created above the target must carry the requested owner and timestamp; when the landing path is the image of a source directory but existed before its contents were copied (the destination root, or a path created with MkdirAll for CopyDirContents / a trailing-slash destination) that directory's own ns mtime must equal the source directory's (or the requested Utime) - nothing else of it is judged; for a requested time outside the int64-ns window every copied entry (files, dirs, symlinks, specials), every directory created above the target and the landing directory are read with lstat as (sec, nsec) pairs and must equal the pair an independent utimensat(AT_SYMLINK_NOFOLLOW) of the requested (sec, nsec) leaves on a scratch node of the same destination file system (file-system clamping is thereby tolerated; the mtime columns of the generic diff are masked for these cases; a Copy that refuses such a time is counted, not judged); an xattr (entry, key) may be missing in the copy only if the recording handler was called for exactly that destination path and key, or - AllowXAttrErrors - an independent lsetxattr of that key/value on a scratch node of the destination file system is refused (further keys of the same entry after such a tolerated failure are counted, not judged); every handler call must name a copied destination path and carry an error; the notifier must be called exactly once per non-directory with its leading-slash normalised destination path (calls for directories are counted, not judged). " +
 			"non-trivial = Copy returned nil, at least one entry was copied and compared, and the copied subset holds a link group, special file, special mode bit, xattr or symlink, or at least one of chown/mode/modestr/utime is set; distinct by (tree, variant, destination form, option values) fingerprint",
 		Assumptions: []string{
 			"runs as root; source on tmpfs under /dev/shm (mknod, user.* and trusted.* xattrs, values up to 20000 bytes); outside the xattr fault variant the destination is on the same tmpfs and no xattr operation fails",
@@ -717,6 +782,9 @@ func c13GenPlan(R *core.Rand, snap *tree.Tree) *c13Plan {
 			ns = int64(1_000_000_000+R.Intn(700_000_000))*1_000_000_000 + int64(R.Intn(1_000_000_000))
 		}
 		p.Utime = &ns
+		if R.P(1, 12) {
+			p.UtimeFar = genFarTime(R)
+		}
 	}
 	p.Xeh = []string{"nil", "allow", "strict", "record"}[R.Weighted([]int{3, 1, 2, 1})]
 	p.Notify = !R.P(1, 8)
@@ -984,8 +1052,16 @@ func c13Run(c *core.Ctx) *core.Result {
 			nsec += 1e9
 		}
 		tm := time.Unix(sec, nsec)
+		if p.UtimeFar != nil {
+			tm = time.Unix(p.UtimeFar[0], p.UtimeFar[1])
+			if tm.Unix() != p.UtimeFar[0] || int64(tm.Nanosecond()) != p.UtimeFar[1] {
+				r.Inconclusive = "far time not representable as time.Time"
+				return r
+			}
+		}
 		ci.Utime = &tm
 	}
+	far := p.UtimeFar != nil
 	opts := []fs.Opt{fs.WithCopyInfo(ci)}
 	if p.Chown != nil {
 		opts = append(opts, fs.WithChown(p.Chown[0], p.Chown[1]))
@@ -1038,9 +1114,46 @@ func c13Run(c *core.Ctx) *core.Result {
 		r.Count("xfault_aborted_by_intolerant_handler", 1)
 		return r
 	}
+	if far {
+		r.Count("utime_far_cases", 1)
+		if p.UtimeFar[0] > 0 {
+			r.Count("utime_far_cases_after_2262", 1)
+		} else {
+			r.Count("utime_far_cases_before_1677", 1)
+		}
+	}
+	if cerr != nil && far {
+		// the conversion of such a time may legitimately be refused
+		r.Count("utime_far_copy_error_not_judged", 1)
+		return r
+	}
 	if cerr != nil {
 		r.ViolateD("copy-failed", sample, "Copy(%q -> %q, %s) failed on a legal tree: %v", p.Src, p.Dst, p.optCombo(), cerr)
 		return r
+	}
+	// requested time outside the int64-ns window: judged on (sec, nsec)
+	// pairs, expected = what utimensat leaves on this file system
+	var farSec, farNsec int64
+	if far {
+		var err error
+		farSec, farNsec, err = farTimeOnFS(filepath.Dir(dstDir), p.UtimeFar[0], p.UtimeFar[1])
+		if err != nil {
+			r.Inconclusive = "far-time scratch: " + err.Error()
+			return r
+		}
+		if farSec != p.UtimeFar[0] || farNsec != p.UtimeFar[1] {
+			r.Count("utime_far_clamped_by_file_system", 1)
+		}
+	}
+	farCheck := func(rel, what string) {
+		s, n, err := lstatPair(filepath.Join(dstDir, filepath.FromSlash(rel)))
+		if err != nil {
+			return // a missing entry is reported by the generic diff
+		}
+		r.Count("utime_far_entries_checked", 1)
+		if s != farSec || n != farNsec {
+			r.ViolateD("utime-far-range", sample, "%s %q carries mtime (sec=%d, nsec=%d) = %s; requested (sec=%d, nsec=%d) = %s, which utimensat stores on this file system as (sec=%d, nsec=%d)", what, "/"+rel, s, n, time.Unix(s, n).UTC().Format(time.RFC3339Nano), p.UtimeFar[0], p.UtimeFar[1], time.Unix(p.UtimeFar[0], p.UtimeFar[1]).UTC().Format(time.RFC3339Nano), farSec, farNsec)
+		}
 	}
 	got, err := tree.Snapshot(dstDir, tree.SnapOpt{})
 	if err != nil {
@@ -1131,7 +1244,10 @@ func c13Run(c *core.Ctx) *core.Result {
 				r.ViolateD("parent-owner", sample, "created directory %q above the target has owner %d:%d, requested %d:%d", d, g.UID, g.GID, p.Chown[0], p.Chown[1])
 			}
 		}
-		if p.Utime != nil {
+		if far {
+			r.Count("created_parents_time_checked", 1)
+			farCheck(d, "created directory above the target")
+		} else if p.Utime != nil {
 			r.Count("created_parents_time_checked", 1)
 			if g.Mtime != *p.Utime {
 				r.ViolateD("parent-utime", sample, "created directory %q above the target has mtime %d, requested %d", d, g.Mtime, *p.Utime)
@@ -1166,8 +1282,20 @@ func c13Run(c *core.Ctx) *core.Result {
 			if landing == "" {
 				r.Count("landing_dir_is_destination_root", 1)
 			}
-			if ld.Mtime != want {
+			if far {
+				if !parentSet[landing] { // parents were checked above
+					farCheck(landing, "landing directory")
+				}
+			} else if ld.Mtime != want {
 				r.ViolateD("landing-dir-mtime", sample, "the landing directory %q (image of source directory %q, it existed before its contents were copied) has mtime %d, want %s %d", "/"+landing, "/"+srcRel, ld.Mtime, what, want)
+			}
+		}
+	}
+
+	if far {
+		for _, e := range exp.Entries {
+			if !parentSet[e.Path] {
+				farCheck(e.Path, fmt.Sprintf("copied entry (type %c)", e.Type))
 			}
 		}
 	}
@@ -1275,7 +1403,7 @@ func c13Run(c *core.Ctx) *core.Result {
 			r.ViolateD("xeh-unexpected-path", sample, "xattr error handler called with destination %q, which is not the destination path of a copied entry", cl.Dst)
 		}
 	}
-	mask := tree.Mask{Perm: true, Owner: true, Mtime: true, DirMtime: true, Xattrs: true, DirXattrs: true, SymlinkXattrs: true, SpecialXattrs: true, Links: true, Data: true, Rdev: true, Target: true}
+	mask := tree.Mask{Perm: true, Owner: true, Mtime: !far, DirMtime: !far, Xattrs: true, DirXattrs: true, SymlinkXattrs: true, SpecialXattrs: true, Links: true, Data: true, Rdev: true, Target: true}
 	diffs := tree.Diff(exp, got, mask)
 	if len(diffs) > 0 {
 		diffs = shortLines(diffs, 700)
@@ -1361,6 +1489,6 @@ func c13Run(c *core.Ctx) *core.Result {
 	if p.Mode != nil {
 		md = *p.Mode
 	}
-	r.FP = fmt.Sprintf("%s|%s|%s|%s|%s|%v|%o|%s|%d|%s", snap.Fingerprint(), p.Variant, p.SrcRel, p.DstForm, p.optCombo(), p.Chown, md, p.ModeStr, ut, p.Dst)
+	r.FP = fmt.Sprintf("%s|%s|%s|%s|%s|%v|%o|%s|%d%v|%s", snap.Fingerprint(), p.Variant, p.SrcRel, p.DstForm, p.optCombo(), p.Chown, md, p.ModeStr, ut, p.UtimeFar, p.Dst)
 	return r
 }
